@@ -167,9 +167,9 @@ def docstring(
         header, footer = intermediate_repr.get("doc", ""), ""
 
     candidate_doc_str: str = header_args_footer_to_str(
-        header=header,
+        header=header or "",
         args_returns="" if candidate_args_returns.isspace() else candidate_args_returns,
-        footer=footer,
+        footer=footer or "",
     )
 
     if not candidate_doc_str or candidate_doc_str.isspace():
